@@ -5,10 +5,12 @@
 
 from __future__ import annotations
 
+from collections.abc import Callable
 from http import HTTPStatus
 from typing import Any
 
 import pyarrow as pa
+from pyarrow import ipc
 
 from vgi_rpc._codec import (
     DecompressionError,
@@ -194,11 +196,24 @@ _VGI_LOGO_HTML = """\
 
 
 class _RpcHttpError(Exception):
-    """Internal exception for HTTP-layer errors with status codes."""
+    """Internal exception for HTTP-layer errors with status codes.
 
-    __slots__ = ("cause", "schema", "status_code")
+    ``write_logs``, when given, writes the client-log batches the method
+    emitted before it failed; the error response carries them ahead of the
+    error batch (it is called with the response's IPC writer and schema).
+    """
 
-    def __init__(self, cause: BaseException, *, status_code: HTTPStatus, schema: pa.Schema = _EMPTY_SCHEMA) -> None:
+    __slots__ = ("cause", "schema", "status_code", "write_logs")
+
+    def __init__(
+        self,
+        cause: BaseException,
+        *,
+        status_code: HTTPStatus,
+        schema: pa.Schema = _EMPTY_SCHEMA,
+        write_logs: Callable[[ipc.RecordBatchStreamWriter, pa.Schema], None] | None = None,
+    ) -> None:
         self.cause = cause
         self.status_code = status_code
         self.schema = schema
+        self.write_logs = write_logs
